@@ -95,6 +95,12 @@ class C01(Check):
                 emap = ExchangeMap(ref, tgt, s)
                 out = emap(ref).atoms_positions
                 eq = emap.equivalences
+                # the law is about the construction configuration whenever the map is applied to it:
+                # apply the map to another configuration in between, then to the construction object again
+                other = ref.copy()
+                other.atoms_positions = rpos[::-1] * 1.25 + np.array([1.0, -2.0, 3.0])
+                emap(other)
+                out_again = emap(ref).atoms_positions
             except Exception as ex:
                 R.case(cdesc, nontrivial=False, outcome='exception', cls=cls)
                 R.violation(f'map/{geo}/exception', cdesc, repr(ex))
@@ -113,6 +119,11 @@ class C01(Check):
                 what = 'other-anchor' if wrong_anchor else 'anchor-scale-law'
                 R.violation(f'map/{geo}/{what}', cdesc,
                             f'atom {k}: got {out[k].tolist()} want {exp[k].tolist()} (anchor {assign[k]}, err {err:.3e})')
+            if out_again.shape != exp.shape or not np.all(np.isfinite(out_again)) or \
+                    float(np.abs(out_again - exp).max()) > TOL:
+                R.violation(f'map/{geo}/law-fails-after-mapping-another-configuration', cdesc,
+                            f'second application to the construction reference: max |out - expected| = '
+                            f'{float(np.abs(out_again - exp).max()):.3e}')
             if s == 1.0 and float(np.abs(out - tpos).max()) > TOL:
                 R.violation(f'map/{geo}/s1-target-not-reproduced', cdesc,
                             f'max deviation {float(np.abs(out - tpos).max()):.3e}')
